@@ -17,7 +17,7 @@ from vf import harness
 
 PROP = "C16"
 SHARDS = {"quick": 16, "thorough": 16}
-TIME_CAP = {"quick": 240, "thorough": 1500}   # wall-clock guard only (loaded machines); the budgets are counts
+TIME_CAP = {"quick": 240, "thorough": 2700}   # wall-clock guard only (loaded machines); the budgets are counts
 CPU_CAP = {"quick": 60, "thorough": 700}       # CPU seconds per worker (nominal: ~20 s quick, ~200 s thorough)
 REQUIRED = ["programs", "view:serialize", "view:deserialization_schema", "view:serialization_schema", "view:graphql_output", "view:graphql_input",
             "agreement_checks", "form:field-metadata", "form:class-mapping", "form:class-mapping-partial", "form:class-sequence", "form:inheritance",
